@@ -261,14 +261,31 @@ func (r *LogValueRef) getOffsetDataValue(log *types.Log) []byte {
 	//		- reading the `value` from `data[internal_offset+WORD:internal_offset+WORD+value_length]`
 	//
 	dataOffset := r.Offset - 4
+	dataLen := uint64(len(log.Data))
 
+	// All offsets and lengths below are read from the log data, i.e. they are controlled by
+	// whoever emitted the log. Never index or allocate beyond what the log actually contains.
 	offsetStartByte := dataOffset * Word
-
+	if offsetStartByte+Word > dataLen {
+		return nil
+	}
 	x := log.Data[offsetStartByte : offsetStartByte+Word]
 
-	lengthByteOffset := new(big.Int).SetBytes(x).Uint64()
+	offsetWord := new(big.Int).SetBytes(x)
+	if !offsetWord.IsUint64() {
+		return nil
+	}
+	lengthByteOffset := offsetWord.Uint64()
+	if lengthByteOffset > dataLen || dataLen-lengthByteOffset < Word {
+		return nil
+	}
 	y := log.Data[lengthByteOffset : lengthByteOffset+Word]
-	length := new(big.Int).SetBytes(y).Uint64()
+	lengthWord := new(big.Int).SetBytes(y)
+	if !lengthWord.IsUint64() || lengthWord.Uint64() > dataLen {
+		// a slice longer than the whole data section cannot be contained in it
+		return nil
+	}
+	length := lengthWord.Uint64()
 	value := make([]byte, length)
 	startByte := lengthByteOffset + Word
 	endByte := startByte + length
